@@ -60,7 +60,7 @@ def ob_roundtrip(dens, ncols, players, maxbeat, with_ks, budget_s=200):
         notes, meta = [], []
         for i in range(n):
             kind = KINDS[i % len(KINDS)]
-            ks = z3.Int(f"ks{i}") if (with_ks and i % 2 == 0) else None
+            ks = z3.Int(f"ks{i}") if (with_ks == "all" or (with_ks and i % 2 == 0)) else None
             if ks is not None:
                 S.assume(ks >= 0)
             beat = T.Beat(symx.FracShim._make(z3.ToReal(nums[i]) / dens[i], (nums[i], dens[i])))
@@ -171,6 +171,8 @@ def obligations(tier):
         obs.append(dict(name=f"roundtrip 2 notes /{ds}", func="ob_roundtrip", args=(ds, 2, 1, (2 if max(ds) >= 48 else 4) if tier == "quick" else (4 if max(ds) >= 48 else 8), False), budget_s=b,
                         bounds=f"two notes, denominators {ds}, beats in [0,{4 if tier == 'quick' else 8}), sorted unique positions"))
     obs.append(dict(name="roundtrip 2 notes /(1,2) 2 players", func="ob_roundtrip", args=((1, 2), 2, 2, 4, True), budget_s=b, bounds="two notes, players 0..1 symbolic"))
+    obs.append(dict(name="roundtrip 2 notes /(1,2) all keysounded 3 columns", func="ob_roundtrip", args=((1, 2), 3, 1, 2, "all"), budget_s=b,
+                    bounds="two notes, both with a symbolic keysound index (also on one row, also on the very first row), 3 columns"))
     obs.append(dict(name="roundtrip 2 notes /(1,2) 3 players", func="ob_roundtrip", args=((1, 2), 2, 3, 4, True), budget_s=b, bounds="two notes, players 0..2 symbolic (a player absent between two present ones)"))
     obs.append(dict(name="roundtrip 2 notes /(3,4) 3 players", func="ob_roundtrip", args=((3, 4), 1, 3, 4 if tier != "quick" else 2, False), budget_s=b, bounds="two notes, players 0..2 symbolic, denominators 3 and 4"))
     if tier != "quick":
@@ -206,7 +208,7 @@ def replay(data):
     else:
         dens, ncols, players, maxbeat, with_ks = a
         notes = [Note(beat=Beat(int(g(f"n{i}")), dens[i]), column=int(g(f"c{i}")), note_type=NoteType[KINDS[i % 4]], player=int(g(f"pl{i}")) if players > 1 else 0,
-                      keysound_index=int(g(f"ks{i}")) if (with_ks and i % 2 == 0) else None) for i in range(len(dens))]
+                      keysound_index=int(g(f"ks{i}")) if (with_ks == "all" or (with_ks and i % 2 == 0)) else None) for i in range(len(dens))]
     try:
         nd = NoteData.from_notes(notes, ncols)
         back = list(nd)
